@@ -15,10 +15,12 @@ PRE = '''#define RLBOX_SINGLE_THREADED_INVOCATIONS
 #include "rlbox.hpp"
 #include "vsbx.hpp"
 #include <cstdio>
+#include <cstring>
+#include <memory>
 #include <stdexcept>
 using namespace rlbox;
 typedef __int128 mathint;
-static void pr(const char* k, mathint v){ if (v<0){ std::printf("%s=-%llu\\n", k, (unsigned long long)(-v)); } else std::printf("%s=%llu\\n", k, (unsigned long long)v); }
+static void pr(const char* k, mathint v){ char b[64]; int i = 63; b[i] = 0; bool neg = v < 0; unsigned __int128 u = neg ? (unsigned __int128)(-(v + 1)) + 1 : (unsigned __int128)v; if (u == 0) b[--i] = '0'; while (u) { b[--i] = (char)('0' + (int)(u % 10)); u /= 10; } std::printf("%s=%s%s\\n", k, neg ? "-" : "", b + i); }
 '''
 
 
@@ -96,7 +98,69 @@ int main(){
     return src, judge
 
 
-KINDS = {'convert': replay_convert}
+def _clause(desc):
+    m = re.search(r'\[clause:([A-Za-z0-9_.-]+)\]', desc)
+    return m.group(1) if m else None
+
+
+def backend_setup(vals):
+    return ('  vsbx::region_base[0] = %dULL; vsbx::region_size[0] = %dULL; vsbx::region_base[1] = %dULL; vsbx::region_size[1] = %dULL;\n'
+            % (_int(vals, 'in_base0'), _int(vals, 'in_size0'), _int(vals, 'in_base1'), _int(vals, 'in_size1')) +
+            '  auto in_reg = [](int k, mathint m){ return vsbx::region_size[k] != 0 && m >= (mathint)vsbx::region_base[k] && m < (mathint)vsbx::region_base[k] + (mathint)vsbx::region_size[k]; };\n'
+            '  auto which = [&](mathint m){ return in_reg(0, m) ? 0 : (in_reg(1, m) ? 1 : -1); };\n')
+
+
+def replay_ptr_arith(spec, vals, obligation, desc):
+    op, pointee, kind, idx, stride = spec['op'], spec['pointee'], spec['rhs_kind'], spec['idx'], spec['stride']
+    pv = _int(vals, 'in_p')
+    nv = _int(vals, 'in_n')
+    sign = '-' if op in ('sub', 'subassign', 'predec', 'postdec') else '+'
+    body = PRE + 'int main(){\n' + backend_setup(vals)
+    body += '  tainted<%s*, vsbx> p; *reinterpret_cast<uintptr_t*>(&p) = %dULL;\n' % (pointee, pv)
+    if op in ('preinc', 'predec', 'postinc', 'postdec'):
+        body += '  mathint N = 1;\n'
+    elif kind == 'plain':
+        body += '  %s n = %s; mathint N = (mathint)n;\n' % (idx, _lit(nv, idx))
+    elif kind == 'tainted':
+        body += '  tainted<%s, vsbx> n = %s; mathint N = (mathint)%s;\n' % (idx, _lit(nv, idx), _lit(nv, idx))
+    else:
+        body += ('  alignas(8) static unsigned char cell[8]; auto guest = %s; std::memcpy(cell, &guest, sizeof(guest));\n'
+                 '  auto& n = *reinterpret_cast<tainted_volatile<%s, vsbx>*>(cell); mathint N = (mathint)guest;\n' % (_lit(nv, 'int'), idx))
+    body += '  mathint P = (mathint)%dULL; mathint exact = P %s N * %d; int aborted = 0; uintptr_t result = 0;\n' % (pv, sign, stride)
+    call = {
+        'add': 'auto r = p + n; result = (uintptr_t)r.UNSAFE_unverified();',
+        'sub': 'auto r = p - n; result = (uintptr_t)r.UNSAFE_unverified();',
+        'index': 'auto& r = p[n]; result = reinterpret_cast<uintptr_t>(std::addressof(r));',
+        'addassign': 'p += n; result = (uintptr_t)p.UNSAFE_unverified();',
+        'subassign': 'p -= n; result = (uintptr_t)p.UNSAFE_unverified();',
+        'preinc': '++p; result = (uintptr_t)p.UNSAFE_unverified();',
+        'predec': '--p; result = (uintptr_t)p.UNSAFE_unverified();',
+        'postinc': 'auto r = p++; result = (uintptr_t)p.UNSAFE_unverified(); pr("returned", (mathint)(uintptr_t)r.UNSAFE_unverified());',
+        'postdec': 'auto r = p--; result = (uintptr_t)p.UNSAFE_unverified(); pr("returned", (mathint)(uintptr_t)r.UNSAFE_unverified());',
+    }[op]
+    body += '  try { %s } catch (const std::runtime_error&) { aborted = 1; }\n' % call
+    body += ('  std::printf("aborted=%d\\n", aborted); pr("p", P); pr("n", N); pr("exact", exact); pr("result", (mathint)result);\n'
+             '  std::printf("exact_inside=%d\\n", (int)(which(P) != -1 && in_reg(which(P), exact)));\n'
+             '  std::printf("result_equals_exact=%d\\n", (int)((mathint)result == exact));\n  return 0; }\n')
+
+    def judge(d):
+        cl = _clause(desc)
+        returned = d.get('aborted') == '0'
+        if 'precondition' in obligation and cl is None:      # no-abort direction at a dynamic_check site
+            return d.get('aborted') == '1' and pv != 0 and d.get('exact_inside') == '1'
+        if cl in ('exact_nowrap', 'exact_wrap'):
+            return returned and d.get('result_equals_exact') == '0'
+        if cl in ('inside_nowrap', 'inside_wrap'):
+            return returned and d.get('exact_inside') == '0'
+        if cl == 'null_aborts':
+            return returned and pv == 0
+        if cl == 'returns_old':
+            return returned and d.get('returned') != str(pv)
+        return False
+    return body, judge
+
+
+KINDS = {'convert': replay_convert, 'ptr_arith': replay_ptr_arith}
 
 
 def register(kind, fn):
